@@ -1242,6 +1242,10 @@ package desync
 //@   ensures @C13 r1 == nil && is(v, FormatGoodbye) ==> r0 == 16 + 24 * len(as(v, FormatGoodbye).Items)
 //@   ensures @C13 r1 == nil ==> $wn == old($wn) + r0
 //@   loop 1: invariant $wn >= old($wn) && (forall j int :: j < old($wn) ==> $w[j] == old($w[j]) && $wid[j] == old($wid[j]))
+//# F30: a payload is reported as encoded only if the number of data bytes copied from the reader is the number the
+//# header announced (the reader may deliver more or fewer bytes than the metadata said: a file that changed, procfs, a
+//# hard link entry of a tar stream) - so the size field of every element equals the bytes written for it
+//@   ensures @C13 r1 == nil && is(v, FormatPayload) ==> r0 == as(v, FormatPayload).Size
 //@   loop 1: invariant @C13 n == 16 + 24 * $i && $wn == old($wn) + n
 //@   loop 2: invariant @C04 n == 16 + 40*$i && $wn == old($wn) + n && $w[old($wn)] == t.Size && $w[old($wn)+8] == t.Type && \
 //@       (forall k int :: 0 <= k && k < $i ==> $w[old($wn)+16+40*k] == t.Items[k].Offset && $wid[old($wn)+24+40*k] == t.Items[k].Chunk) && \
@@ -1531,7 +1535,9 @@ package desync
 //@   ensures $authOK && $last != nil ==> $status == 400
 
 //@ func (h HTTPHandler) idFromPath
-//@   prop C15
+//# (also C14: the exact comparison is what makes a compressing server refuse a name without the extension, i.e. a client
+//# with the other compression setting gets an error and never the stored bytes of the wrong format)
+//@   prop C15 C14
 //@   safety none
 //@   pure
 //# the only thing a request path can select is the chunk whose 64-digit ID is the path's base name (minus the
@@ -1985,6 +1991,8 @@ package desync
 //@   ghost@after:IsRegular $supp = $supp || $r0
 //@   ghost@after:IsSymlink $supp = $supp || $r0
 //@   assert@before:Encode @C13 is($a0, FormatFilename) ==> $supp
+//# F30: ... for payloads as well: bytes written == size field, for every element kind
+//@   assert@after:Encode @C13 $r1 == nil ==> $r0 == hdrSize($a0)
 
 // ---------------------------------------------------------------------------------------------
 // C03: the remaining backends hand every body they fetched to the verifying constructor with the
